@@ -537,6 +537,7 @@ fn main() {
         }
     }
     let mut summary: Vec<Value> = vec![];
+    let (mut dead_runs, mut executed) = (0usize, 0usize);
     for (k, s) in schedules.iter().enumerate() {
         log.reset(k as u64 + 1, json!({"sched": s.id}));
         let mut run = Run::new(log.clone(), seed.wrapping_add(k as u64));
@@ -551,11 +552,22 @@ fn main() {
             _ => None,
         };
         run.run(s);
+        // a change that makes the router spin or panic in a whole class of schedules makes each of them run into
+        // the spin budget: after sixty such runs the verdicts are in, the rest is not run
+        if run.dead {
+            dead_runs += 1;
+            if dead_runs >= 60 {
+                summary.push(json!({"run": k + 1, "sched": s.id, "polls": run.polls, "finished": run.finished, "dead": run.dead}));
+                executed = k + 1;
+                break;
+            }
+        }
+        executed = k + 1;
         summary.push(json!({"run": k + 1, "sched": s.id, "polls": run.polls, "finished": run.finished, "dead": run.dead}));
     }
     log.flush();
     println!(
         "{}",
-        json!({"runs": schedules.len(), "events": log.lines(), "dead": summary.iter().filter(|v| v["dead"] == true).count()})
+        json!({"runs": executed, "of": schedules.len(), "events": log.lines(), "dead": summary.iter().filter(|v| v["dead"] == true).count()})
     );
 }
